@@ -278,8 +278,10 @@ def run_job(job):
             break
         steps.append(enc_step(tab, e, meta, pre.get(id(e.target.branch), set())))
         if probing:
-            for r, b in slog:
-                if _MW in r.helpers and not fams[id(r)][1].startswith('unmodelled'):
+            # the search that returned the applied target belongs to the application itself (model: `stepEv (.apply …)`)
+            last = max((i for i, (r, b) in enumerate(slog) if r is e.rule and b is e.target.branch), default=-1)
+            for i, (r, b) in enumerate(slog):
+                if i != last and _MW in r.helpers and not fams[id(r)][1].startswith('unmodelled'):
                     events.append(f'S {fams[id(r)][0]} {branch_index(tab, b)}')
             events.append(f'A {fams[id(e.rule)][0]} {steps[-1]}')
             probes.append(probe_state(tab, meta, fams))
